@@ -437,6 +437,12 @@ func expect(c *Case) expectation {
 		for w, g := range groups {
 			n := len(g)
 			rank := int(math.Floor(float64(n)*c.P/100 + 0.5)) // nearest rank
+			if alt := int(math.Ceil(float64(n) * c.P / 100)); alt != rank {
+				// fractional percentiles: the two usual nearest-rank formulas disagree here and the documentation
+				// does not pick one: not judged
+				e.notJudged = true
+				return e
+			}
 			if rank < 1 || rank > n {
 				continue // documented: percentile(0) returns nothing
 			}
@@ -776,7 +782,7 @@ func instances() []fnInst {
 		out = append(out, fnInst{Fn: "moving_average", N: n})
 	}
 	for _, iv := range []int64{0, 4} {
-		for _, p := range []float64{0, 50, 90, 100} {
+		for _, p := range []float64{0, 50, 90, 100, 12.5, 62.5, 97.5} {
 			out = append(out, fnInst{Fn: "percentile", P: p, Ival: iv})
 		}
 		for _, f := range []string{"median", "mode", "spread", "stddev", "distinct"} {
